@@ -292,6 +292,80 @@ func runC16(c *Ctx) error {
 		c.Count("late-announcement")
 	}
 
+	// ---------- (a2) listings taken only now and then ----------
+	// The link list (GetLinks: what announcement forwarding, keep-alives and the disconnect
+	// broadcast iterate over) is looked at only at some points of a history of registrations and
+	// removals, as the running system does: it must hold exactly the links that are registered at
+	// that moment, whatever happened since it was last looked at.
+	for hi, n := 0, c.Pick(40, 300); hi < n; hi++ {
+		w := newRWorld()
+		R, err := w.addNode("R", relayStore, nil)
+		if err != nil {
+			return err
+		}
+		var reg []*hlink
+		next := 0
+		var trace []string
+		for oi, nOps := 0, 6+c.Rng.IntN(12); oi < nOps; oi++ {
+			switch k := c.Rng.IntN(10); {
+			case k < 4 || len(reg) == 0:
+				p := addrFrom(0xfd20_0000_0000_0000|uint64(c.Rng.IntN(1<<24))<<8, uint64(0x100+next))
+				l := &hlink{from: R, to: &rnode{name: "x", id: &m.Address{PublicAddress: m.PublicAddress{IP: p}}}, label: m.SwitchLabel(10 + next), latency: 5, started: time.Now()}
+				next++
+				if R.pe.AddLink(l) == nil {
+					reg = append(reg, l)
+					trace = append(trace, fmt.Sprintf("add(%d)", l.label))
+				}
+			case k < 7:
+				// a link goes away and another one comes up before anybody looks at the list
+				i := c.Rng.IntN(len(reg))
+				old := reg[i]
+				old.closing.Store(true)
+				R.pe.RemoveLink(old)
+				reg = append(reg[:i], reg[i+1:]...)
+				p := old.to.id.IP
+				if c.Rng.IntN(2) == 0 {
+					p = addrFrom(0xfd20_0000_0000_0000|uint64(c.Rng.IntN(1<<24))<<8, uint64(0x100+next))
+				}
+				l := &hlink{from: R, to: &rnode{name: "x", id: &m.Address{PublicAddress: m.PublicAddress{IP: p}}}, label: m.SwitchLabel(10 + next), latency: 5, started: time.Now()}
+				next++
+				if R.pe.AddLink(l) == nil {
+					reg = append(reg, l)
+				}
+				trace = append(trace, fmt.Sprintf("replace(%d->%d)", old.label, l.label))
+			case k < 8:
+				i := c.Rng.IntN(len(reg))
+				reg[i].closing.Store(true)
+				R.pe.RemoveLink(reg[i])
+				trace = append(trace, fmt.Sprintf("remove(%d)", reg[i].label))
+				reg = append(reg[:i], reg[i+1:]...)
+			default:
+				got := R.pe.GetLinks()
+				c.Eval()
+				trace = append(trace, "list")
+				want := map[peering.Link]bool{}
+				for _, l := range reg {
+					want[l] = true
+				}
+				rep := map[string]any{"history": fmt.Sprint(trace)}
+				for _, l := range got {
+					if l.IsClosing() {
+						c.Violate("the link list holds a closing link (history: "+fmt.Sprint(trace)+")", "list-closing-link", rep)
+					}
+					if !want[l] {
+						c.Violate("the link list holds a link that is not registered any more (history: "+fmt.Sprint(trace)+")", "list-stale-link", rep)
+					}
+					delete(want, l)
+				}
+				if len(want) > 0 {
+					c.Violate(fmt.Sprintf("%d registered link(s) are missing from the link list (history: %v)", len(want), trace), "list-missing-link", rep)
+				}
+				c.NonTrivial("listing/" + fmt.Sprint(len(trace)%7))
+			}
+		}
+		c.Count("sparse-listing-history")
+	}
+
 	// ---------- (b) real links ----------
 	nWorlds := c.Pick(4, 30)
 	for wi := 0; wi < nWorlds; wi++ {
